@@ -51,6 +51,13 @@ def jobs(tier):
             for cpath in ("root", "parent"):
                 out.append(("v%d.%s.P16384.%s.ref" % (version, shape, cpath), "job_recheck",
                             dict(prop="C05", version=version, shape=shape, P=16384, K=2, dmg=["intact", "intact"], cpath=cpath, source="ref")))
+    from harness import creators as _cr
+    for shp in _cr.scheme_shapes(["flat2", "nested3"], tier):
+        n = len(rk.SHAPES[shp])
+        for version in (1, 2, 3):
+            for source in ("ref", "own"):
+                out.append(("v%d.%s.P16384.parent.%s" % (version, shp, source), "job_recheck",
+                            dict(prop="C05", version=version, shape=shp, P=16384, K=1, dmg=["intact"] * n, cpath="parent", source=source)))
     for cpath in ("root", "parent"):
         out.append(("v2.single.P16384.%s.ref-nolength" % cpath, "job_recheck",
                     dict(prop="C05", version=2, shape="single", P=16384, K=3, dmg=["intact"], cpath=cpath, source="ref",
